@@ -54,3 +54,8 @@ Definition chk_swath (c : list (list Z) * list bool * list (list Z) * list Z) : 
   zl_eqb (match swath_slices chunks hit with
           | Some (cs, ls) => [1; sstart cs; sstop cs; sstart ls; sstop ls]
           | None => [0; 0; 0; 0; 0] end) exp.
+
+(* different-CRS get_area_slices with shape_divisible_by: one axis, undivided slice [a,b) of an axis of [size] pixels *)
+Definition chk_div (c : Z * Z * Z * Z * (Z * Z)) : bool :=
+  let '(a, b, size, n, (ra, rb)) := c in
+  let r := gen_make_slice_divisible (mk_slice a b) size n in (sstart r =? ra) && (sstop r =? rb).
